@@ -127,11 +127,20 @@ class Parser:
         if self.at("("):
             self.eat()
             items = []
+            alts = None
             while not self.at(")"):
                 items.append(self.parse_pat())
+                if self.at("|") and len(items) == 1:
+                    # `(A | B | C)`: alternatives
+                    alts = [items[0]]
+                    while self.at("|"):
+                        self.eat(); alts.append(self.parse_pat())
+                    break
                 if self.at(","):
                     self.eat()
             self.eat(")")
+            if alts is not None:
+                return ("por", alts)
             return items[0] if len(items) == 1 else ("ptuple", items)
         k, v = self.peek()
         if k == "id" and v == "_":
